@@ -72,10 +72,19 @@ def to_int_matrix(P):
     return N, d
 
 
-def grid_lattice(rng, n):
+def unit_cells():
+    """the `unit_cell` a Lattice may carry for drawing (a matplotlib transform): the markers are defined by the stored vertex coordinates whatever it is"""
+    from matplotlib.transforms import Affine2D, IdentityTransform
+    return [("identity", None), ("scaled 2x1", Affine2D().scale(2, 1)), ("rhombic", Affine2D.from_values(1, 0, 0.5, 0.75 ** 0.5, 0, 0)),
+            ("shifted", Affine2D().translate(0.3, -0.2)), ("scaled 3x3", Affine2D().scale(3, 3))]
+
+
+def grid_lattice(rng, n, cell=None):
     pos = rng.integers(1, GRID, size=(n, 2)) / GRID
     edges = np.array([[i, (i + 1) % n] for i in range(n)] if n > 2 else [[0, 1]], dtype=int)
-    return Lattice(pos, edges, np.zeros_like(edges))
+    if cell is None:
+        return Lattice(pos, edges, np.zeros_like(edges))
+    return Lattice(pos, edges, np.zeros_like(edges), unit_cell=cell)
 
 
 def independent_marker(P, a, b):
@@ -88,6 +97,12 @@ def judge(ctx, name, l, P, crosses, rep, rng, idempotent=True):
     n = l.n_vertices
     scale = max(1.0, float(np.abs(P).max()) ** 3 * n * n)
     tol = 1e-9 * scale
+    if (n + ctx.seed) % 2 == 0 and crosses:
+        # for every other system size the very first marker evaluated is a crosshair marker (state shared between the two functions, keyed on the size)
+        c = np.asarray(crosses[0], dtype=float)
+        m = cn.crosshair_marker(l, P, c)
+        if not np.allclose(m, independent_marker(P, 1.0 * (pos[:, 0] < c[0]), 1.0 * (pos[:, 1] < c[1])), atol=tol, rtol=0):
+            rep(f"crosshair_marker at {c.tolist()} (first marker evaluated for this system size) is not 4*pi*Im diag(P theta_x P theta_y P)", crosshair=c.tolist()); return False
     ch = cn.chern_marker(l, P)
     if ch.shape != (n,) or np.iscomplexobj(ch) or not np.allclose(ch, independent_marker(P, pos[:, 0], pos[:, 1]), atol=tol, rtol=0):
         rep("chern_marker is not 4*pi*Im diag(P x P y P)"); return False
@@ -132,6 +147,10 @@ def judge(ctx, name, l, P, crosses, rep, rng, idempotent=True):
         if not np.allclose(cn.crosshair_marker(l, Pg, c), m, atol=tol, rtol=0):
             rep("crosshair marker changes under a site-wise sign change", crosshair=c.tolist()); return False
         ctx.case((name, "crosshair", tuple(c.tolist())), nontrivial=0 < tx.sum() < n or 0 < ty.sum() < n)
+    # after the crosshair scan the Chern marker of the same lattice is what it was before
+    ch2 = cn.chern_marker(l, P)
+    if not np.allclose(ch2, independent_marker(P, pos[:, 0], pos[:, 1]), atol=tol, rtol=0):
+        rep("chern_marker evaluated after a scan of crosshair markers is no longer 4*pi*Im diag(P x P y P)"); return False
     return True
 
 
@@ -160,7 +179,10 @@ def run(ctx):
     reqs, meta = [], []
     # ---- exact part: rational projectors of every rank on small lattices
     for n in ([2, 3, 4, 5, 6, 7, 8] if quick else [2, 3, 4, 5, 6, 7, 8, 9, 10]):
-        l = grid_lattice(rng, n)
+        cells = unit_cells()
+        cname, cell = cells[n % len(cells)]
+        l = grid_lattice(rng, n, cell)
+        if cell is not None: ctx.count("lattices_with_non_identity_unit_cell")
         for r in range(n + 1):
             Pq = rational_projector(rng, n, r)
             if Pq is None:
@@ -182,7 +204,9 @@ def run(ctx):
     # ---- float part: larger systems, spectral projectors
     big = []
     for V in ([8, 14, 30, 60] if quick else [8, 12, 20, 30, 45, 60]):
-        l = grid_lattice(rng, V)
+        cname, cell = unit_cells()[(V // 2) % len(unit_cells())]
+        l = grid_lattice(rng, V, cell)
+        if cell is not None: ctx.count("lattices_with_non_identity_unit_cell")
         for r in sorted({0, 1, V // 3, V // 2, V - 1, V}):
             A = rng.normal(size=(V, max(r, 1))) + 1j * rng.normal(size=(V, max(r, 1)))
             Q, _ = np.linalg.qr(A)
